@@ -364,10 +364,17 @@ class Prog:
         for c in classes:
             c.bind(self.colls)
 
-    def traits(self, backend):
-        """Structural traits that select a recorded finding (known_findings.json) for failures of this program."""
+    def traits(self, backend, keyprint=False):
+        """Structural traits that select a recorded finding (known_findings.json) for failures of this program.
+        keyprint: also the traits that only matter for the printed form of keys (C23)."""
         t = set()
         for c in self.classes:
+            if keyprint:
+                decl = [l[0] for l in c.locals if l[0] in c.params]
+                if decl != list(c.params):
+                    t.add('keyprint-order')
+                if any(kind == 'expr' and name in c.params for name, kind, pl in c.locals):
+                    t.add('keyprint-derived')
             for name, kind, pl in c.locals:
                 if name not in c.params:
                     continue
